@@ -33,7 +33,7 @@ BRANCHES = {
     "class_group": ["m"],
     "subcommands": ["fit", "test"],
 }
-C05_SHAPES = ["scalars", "unions", "lists", "dicts", "tuples", "restricted", "dataclass", "dataclass_opt", "subclass", "groups", "subcommands", "class_group"]
+C05_SHAPES = ["wrong_kind", "scalars", "unions", "lists", "dicts", "tuples", "restricted", "dataclass", "dataclass_opt", "subclass", "groups", "subcommands", "class_group"]
 
 
 def _flatten(obj, branches, prefix=""):
@@ -357,7 +357,7 @@ def main(rep, tier):
     smt_layer(rep, tier)
     ast_layer(rep, tier)
     jobs = [dict(module="c05", func="obj_channels", kwargs=dict(shape=s), timeout=200 if tier == "quick" else 900) for s in shapes]
-    tshapes = shapes if tier == "thorough" else ["scalars", "lists", "groups", "subcommands", "dicts", "dataclass_opt"]
+    tshapes = shapes if tier == "thorough" else ["scalars", "lists", "groups", "subcommands", "dicts", "dataclass_opt", "wrong_kind"]
     tjobs = []
     for s_ in tshapes:
         n = {"scalars": 6, "lists": 4 if tier == "quick" else 16, "dicts": 2, "restricted": 3, "unions": 3}.get(s_, 1)
